@@ -524,7 +524,7 @@ def check_property(prop, tier, only=None, keep=False, seed=0):
     reg = load_registry()
     known = load_known()
     pmeta = reg.get("property", {}).get(prop, {})
-    features = prop_features(reg, prop)
+    features = prop_features(reg, prop) + (["thorough"] if tier == "thorough" else [])
     pool = SlotPool(NSLOTS)
     workdir = os.path.join(CACHE, f"run-{prop}-{tier}-{os.getpid()}")
     os.makedirs(workdir, exist_ok=True)
